@@ -2340,6 +2340,14 @@ def lib_prod(ev, a, k, n, mod):
         for i in v.items:
             r = r * as_sym(i)
         return r
+    if isinstance(v, Tup) and v.items and all(is_sym(i) for i in v.items) and (axis is None or _const_int(axis) in (1, -1)):
+        # a tuple of grid vectors reduced over the GRID axis (axis=None: over everything): one number per vector (or one in all)
+        # instead of one value per grid point - an opaque reduction that no per-point formula equals
+        r = sp.Integer(1)
+        for i in v.items:
+            r = r * as_sym(i)
+        tag = "PRODALL" if axis is None else "PRODGRID"
+        return sp.Function(tag)(r) if axis is None else Tup([sp.Function(tag)(as_sym(i)) for i in v.items], "list")
     raise ev.err("numpy.prod of a non-tuple or without axis=0", n, mod)
 
 
@@ -3056,6 +3064,8 @@ def lib_resource_filename(ev, a, k, n, mod):
 
 
 def lib_getattr(ev, a, k, n, mod):
+    if isinstance(a[1], (Obj, Tup, DictV, ArrV)) or (is_sym(a[1]) and not isinstance(a[1], bool)):
+        raise RaisedV("TypeError", f"{mod.rel}:{getattr(n, 'lineno', 0)}" if mod else "")      # getattr(): attribute name must be string
     if not isinstance(a[1], str):
         raise ev.err("getattr with a non-constant name", n, mod)
     try:
